@@ -207,6 +207,24 @@ def check(pid, tier, seed, only=None, jobs=None):
         else:
             inconclusive.append("%s: %s %s" % (name, st, (r.get("messages") or r.get("error") or "")))
 
+    # known findings given as explicit per-obligation lists (replayed inside the workers on the plain interpreter)
+    agg = {}
+    for r in results:
+        kr = r.get("known_replay")
+        if kr and kr.get("listed"):
+            a = agg.setdefault(kr["finding"], {"listed": 0, "reproduced": 0, "obligations": 0, "example": None})
+            a["listed"] += kr["listed"]
+            a["reproduced"] += kr["reproduced"]
+            a["obligations"] += 1
+            a["example"] = a["example"] or kr.get("example")
+    for kf in known:
+        a = agg.get(kf["id"])
+        if a and kf["status"] == "open":
+            line = "KNOWN-FINDING: property=%s %s [%s] %d listed inputs in %d obligations of this run, %d still reproduce; e.g. %s" % (
+                pid, kf["what"], kf["id"], a["listed"], a["obligations"], a["reproduced"], a["example"])
+            print(line)
+            known_lines.append(line)
+            witnesses_replayed += a["listed"]
     for s in inconclusive:
         print("INCONCLUSIVE", s)
     for s in harness_errors:
